@@ -30,8 +30,27 @@ CFLAGS = ['-g', '-O1', '-fno-omit-frame-pointer', '-fsanitize=address,undefined'
           '-fno-sanitize-recover=undefined', '-DCARQUET_VERIF_REPLAY=1']
 
 
+def spec_of(name):
+    """name (registry key) or an inline dict from the job definition -> normalized spec dict"""
+    if isinstance(name, dict):
+        d = dict(name)
+        d.setdefault('sources', [])
+        d.setdefault('max_len', 64)
+        d.setdefault('secs', 20)
+        d.setdefault('vars', {})
+        return d
+    if name in FUZZ:
+        h, srcs, max_len, secs = FUZZ[name]
+        return dict(kind='fuzz', harness=h, sources=srcs, max_len=max_len, secs=secs)
+    if name in DIRECT:
+        h, srcs, v = DIRECT[name]
+        return dict(kind='direct', harness=h, sources=srcs, vars=v)
+    raise KeyError(name)
+
+
 def build_fuzz(name, REPO, ROOT, out):
-    h, srcs, max_len, secs = FUZZ[name]
+    sp = spec_of(name)
+    h, srcs, max_len, secs = sp['harness'], sp['sources'], sp['max_len'], sp['secs']
     cmd = ['clang', '-fsanitize=fuzzer'] + CFLAGS + ['-I' + os.path.join(REPO, 'include'),
                                                        '-I' + os.path.join(REPO, 'src'),
                                                        '-I' + os.path.join(ROOT, 'replay'),
@@ -52,15 +71,15 @@ def trace_bytes(trace):
 
 
 def run(name, job, R, primary, trace, REPO, ROOT):
-    if name in FUZZ:
-        return run_fuzz(name, job, primary, trace, REPO, ROOT)
-    if name in DIRECT:
-        return run_direct(name, job, primary, trace, REPO, ROOT)
-    raise KeyError(name)
+    sp = spec_of(name)
+    if sp['kind'] == 'fuzz':
+        return run_fuzz(sp, job, primary, trace, REPO, ROOT)
+    return run_direct(sp, job, primary, trace, REPO, ROOT)
 
 
 def build_direct(name, REPO, ROOT, out):
-    h, srcs, _v = DIRECT[name]
+    sp = spec_of(name)
+    h, srcs = sp['harness'], sp['sources']
     cmd = ['clang'] + CFLAGS + ['-I' + os.path.join(REPO, 'include'), '-I' + os.path.join(REPO, 'src'), '-I' + REPO,
                                 '-I' + os.path.join(ROOT, 'replay'), '-I' + ROOT, os.path.join(ROOT, h)] + \
           [os.path.join(REPO, s) for s in srcs] + ['-lm', '-lz', '-lzstd', '-o', out]
@@ -76,7 +95,8 @@ def num(v):
 
 
 def run_direct(name, job, primary, trace, REPO, ROOT, inputs=None):
-    h, srcs, vmap = DIRECT[name]
+    sp = spec_of(name)
+    h, srcs, vmap = sp['harness'], sp['sources'], sp['vars']
     td = tempfile.mkdtemp(prefix='cqv_rp_')
     try:
         if inputs is None:
@@ -97,7 +117,7 @@ def run_direct(name, job, primary, trace, REPO, ROOT, inputs=None):
         open(inp, 'w').write(''.join('%s=%s\n' % kv for kv in inputs.items()))
         p = subprocess.run([exe, inp], stdout=subprocess.PIPE, stderr=subprocess.STDOUT, timeout=120)
         log = p.stdout.decode(errors='replace')
-        return dict(reproduced=p.returncode != 0, kind='direct', replayer=name, harness=h,
+        return dict(reproduced=p.returncode != 0, kind='direct', replayer=sp, harness=h,
                     source="verifier's counterexample values run on the real /repo sources (ASan/UBSan)",
                     inputs=inputs, exit_status=p.returncode, report=log.strip().split('\n')[-6:])
     finally:
@@ -105,7 +125,8 @@ def run_direct(name, job, primary, trace, REPO, ROOT, inputs=None):
 
 
 def run_fuzz(name, job, primary, trace, REPO, ROOT):
-    h, srcs, max_len, secs = FUZZ[name]
+    sp = spec_of(name)
+    h, srcs, max_len, secs = sp['harness'], sp['sources'], sp['max_len'], sp['secs']
     td = tempfile.mkdtemp(prefix='cqv_rp_')
     try:
         exe = os.path.join(td, 'fz')
@@ -134,7 +155,7 @@ def run_fuzz(name, job, primary, trace, REPO, ROOT):
         return dict(reproduced=True, kind='fuzz', source='native search (libFuzzer, <=%ds) on the real /repo sources, '
                     'seeded with the byte values of the verifier counterexample state' % secs,
                     harness=h, input_file=inp, input_hex=data.hex(), report=rep,
-                    replayer=name)
+                    replayer=sp)
     finally:
         shutil.rmtree(td, ignore_errors=True)
 
@@ -146,7 +167,7 @@ def rerun(d, REPO, ROOT):
         print('no native input stored for this violation (no-failing-input-found)')
         return 0
     name = nr['replayer']
-    if name in DIRECT:
+    if spec_of(name)['kind'] == 'direct':
         r = run_direct(name, dict(entry=None, props=[d['property']], name=d['job']), None, None, REPO, ROOT,
                        inputs=nr['inputs'])
         print('\n'.join(r.get('report', [])))
